@@ -1087,6 +1087,11 @@ def corpus():
     const = L.ParamField(2, 1, [[(Fraction(1), (1, 1), (1,))], [(Fraction(0), (0, 1), (0,))]], "augmented-constant")
     out.append(("corpus:mle-zero-residual:bd", base_cfg(const, fact="bd", solver="mle", strategy="filter", lin="ts0", init="exact", q=2, grid=[0.0, 0.25, 0.5, 0.75, 1.0],
                                                        theta=[0.5], u0=[1.0, 0.75])))
+    # the same for the isotropic and the dense model, where the whole residual has to vanish: an ODE started exactly at an
+    # equilibrium (seeded change C16-s8: a norm without the guard in the isotropic whitened residual)
+    for fact in ("iso", "dense"):
+        out.append((f"corpus:mle-zero-residual:{fact}", base_cfg(lg, fact=fact, solver="mle", strategy="filter", lin="ts0", init="exact", q=2, grid=[0.0, 0.25, 0.5, 0.75],
+                                                              theta=[1.5], u0=[1.0])))
     out.append(("corpus:std-nan:bd", base_cfg(lg, fact="bd", solver="solver", strategy="filter", lin="ts1", init="exact", q=1, grid=[0.0, 0.25, 0.5])))
     return out
 
